@@ -11,6 +11,18 @@ and the two `…_fails_asis_lsm_…` theorems show what the LSM read path of the
 to a removed lock (the C19 face of the C01/C02 findings `lsm-l0-oldest-wins`,
 `lsm-ingest-minkey-order`).
 
+ATOMICITY — assumption `HandlersAtomic`.  Every theorem here (and in C17, C18) composes the request
+handlers as atomic steps: `apply c s req` is one transition.  That is justified BECAUSE each handler
+(`Prewrite`, `Commit`, `BatchRollback`, `ResolveLock`, `CheckTxnStatus`) takes the latches of the
+keys it names before its first read of the lock / write column and holds them until it returns, so
+two handlers touching a common key never overlap.  A handler that reads the lock before
+`latches.Acquire` and acts on that value afterwards (e.g. `CheckTxnStatus` re-writing, for its
+min-commit push, a lock that a `Commit` removed in between) is outside the model: no history of
+atomic steps produces a lock after the transaction's successful commit (`C19_lock_released`).
+The assumption is not a Lean hypothesis (the model has no finer steps to state it in); it is tied
+to the source by the extracted fact `latch.readsBeforeAcquire` (expected `none`, part of C19's
+configuration in props/C19.json) and exercised by the harness's `race` op.
+
 The configuration is `Phys.C19Cfg` (Percolator decisions + LSM decisions); the theorems about the
 Percolator layer alone take its `perc` part (coercion).
 -/
